@@ -24,7 +24,9 @@ func vh_C03_L1_decode() {
 	vBoundSackCounts(raw)
 	vFixChecksum(raw)
 	p := &packet{}
+	vMustNotBlock("decoding an inbound packet returns (no input makes a decoder loop for ever)")
 	err := p.unmarshal(false, raw)
+	vMayBlock()
 	if err == nil {
 		total := packetHeaderSize
 		for _, c := range p.chunks {
@@ -67,7 +69,10 @@ func vh_C03_L1_decode_each_chunk_type() {
 	vBoundSackCounts(raw)
 	vFixChecksum(raw)
 	p := &packet{}
-	if err := p.unmarshal(false, raw); err == nil {
+	vMustNotBlock("decoding an inbound packet returns (no input makes a decoder loop for ever)")
+	err := p.unmarshal(false, raw)
+	vMayBlock()
+	if err == nil {
 		vassert(len(p.chunks) == 1, "one chunk")
 		for _, c := range p.chunks {
 			_, _ = c.check()
